@@ -50,6 +50,9 @@ CFG = {
                        # calendars declared on a resource group (hours, shift, zone, leave) and inherited by its members
                        (2, Knobs(envelope="asap", p_group=0.9, p_group_cal=0.9, max_res=3, p_wh=0.3, p_shift=0.4, p_leave=0.8, p_tz=0.3,
                                  big_effort=0.4, dur_weeks=[2, 3])),
+                       # three levels: a group that refers to a shift, a sub-group with hours of its own, members with none
+                       (1, Knobs(envelope="asap", p_group=1.0, p_group_cal=1.0, p_subgroup=0.9, max_res=3, p_wh=0.15, p_shift=1.0,
+                                 p_leave=0.3, p_tz=0.0, big_effort=0.4, dur_weeks=[2, 3])),
                        (2, Knobs(aligned_only=False, p_wh=0.9, p_leave=0.8, p_tz=0.3, forward_only=True, envelope="asap", big_effort=0.4))],
                 nontrivial=any_booking,
                 rule="random projects with own hours / shifts (several intervals, cross-midnight, 24:00), zones incl. DST weeks and "
